@@ -23,6 +23,18 @@ SPECS = [
     # --- C01 / C06: event-by-event Stokes parameters
     Spec(K, 'xStokesAnalysis.stokes_q', 'stokes_q', ['phi'], consts={'weights': None}),
     Spec(K, 'xStokesAnalysis.stokes_u', 'stokes_u', ['phi'], consts={'weights': None}),
+    # the per-bin analysis of Kislat et al. (2015): the masked-array idiom read per element (one energy bin)
+    Spec(K, 'xStokesAnalysis.calculate_polarization', 'calculate_polarization', ['I', 'Q', 'U', 'mu', 'W2'], bools=['degrees'], consts={'W2': 'NotNone'},
+         elementwise=True, note='one energy bin: (PD, PD_ERR, PA, PA_ERR)'),
+    Spec(K, 'xStokesAnalysis.calculate_stokes_errors', 'calculate_stokes_errors', ['I', 'Q', 'U', 'mu', 'W2'], elementwise=True, drop=['sig', '_mask'],
+         note='one energy bin: (QN, UN, dI, dQ, dU, dQN, dUN, cov, pval, conf); SIGNIF goes through scipy and is projected away'),
+    Spec(K, 'xStokesAnalysis.calculate_mdp99', 'calculate_mdp99', ['mu', 'I', 'W2'], bools=['clip'], elementwise=True),
+    Spec(K, 'xStokesAnalysis.calculate_n_eff', 'calculate_n_eff', ['counts', 'I', 'W2'], elementwise=True, note='array path (counts is an array)'),
+    Spec('ixpeobssim.binning.base', 'xBinnedFileBase._weighted_average', 'weighted_average', [], bools=['invert_w2'],
+         consts={'default': 0.}, abstract={'self.__data_dict': 'a', 'other.__data_dict': 'b'}, elementwise=True,
+         note='one bin of the summation of two binned files: a, a_2 = value and weight of self; b, b_2 = value and weight of other'),
+    Spec('ixpeobssim.binning.misc', 'xBinnedLightCurve.__iadd__', 'lc_iadd', [], elementwise=True, guards=['_check_iadd'],
+         note='one time bin of the sum of two light curves: (COUNTS, EXPOSURE, ERROR) after the update'),
     Spec('ixpeobssim.evt.align', 'align_stokes_parameters', 'align_stokes_parameters', ['q', 'u', 'q0', 'u0']),
     Spec('ixpeobssim.evt.spurmrot', 'delta_phi_ampl', 'delta_phi_ampl', ['phi', 'amplitude', 'phase', 'harmonic']),
     Spec('ixpeobssim.evt.spurmrot', 'delta_phi_stokes', 'delta_phi_stokes', ['phi', 'qspur', 'uspur']),
@@ -325,8 +337,9 @@ def main():
             res = '[%s]' % call
         elif s._nret == 2:
             res = 'let r := %s; [r.1, r.2]' % call
-        elif s._nret == 3:
-            res = 'let r := %s; [r.1, r.2.1, r.2.2]' % call
+        elif s._nret >= 3:
+            projs = ['r' + '.2' * i + ('.1' if i < s._nret - 1 else '') for i in range(s._nret)]
+            res = 'let r := %s; [%s]' % (call, ', '.join(projs))
         else:
             raise SystemExit('arity')
         d.append('  | "%s" => if a.size = %d ∧ b.size = %d then some (%s) else none' % (s.lean, n, len(s.bools), res))
